@@ -55,6 +55,8 @@ def _geoms(tier):
         dict(cb=16, ver=2, W=3, at="0", alpha="V2", layout="l1_first", cut=0, v2="ext", extlen=16, only=[B.U, B.N, B.C]),
         dict(cb=14, ver=2, W=3, at="straddle", alpha="V2", layout="l2_first", cut=0, v2="ext", extlen=31, only=[B.U, B.N]),
         dict(cb=16, ver=3, W=3, at="0", alpha="V3", layout="l1_first", cut=0, hl=112, datafile=True, only=[B.U, B.Z, B.N]),
+        # external data file whose clusters lie far beyond the length of the (small) image file that holds the tables
+        dict(cb=12, ver=3, W=3, at="0", alpha="V3", layout="l1_first", cut=0, hl=112, datafile=True, dbase=1 << 24, only=[B.U, B.Z, B.N]),
         # external data file without the (optional) data-file-name extension, over a backing file
         dict(cb=12, ver=3, W=3, at="0", alpha="V3", layout="l1_first", cut=0, hl=112, datafile="anon", backing="equal",
              only=[B.U, B.Z, B.N]),
